@@ -21,6 +21,9 @@ def main(tier, seed):
                                     env.QUICK_X86 if quick else env.X86_ARCHS,
                                     env.QUICK_ARM if quick else env.ARM_ARCHS, flag_deps=(False, True))
     deps_run.finish_family(run, "C05", cases)
+    # whole-run traces of `inspect` (Osaca.tla): the summary numbers are the numbers the graph stage computed
+    from harness import osaca_run
+    osaca_run.whole_runs(run, "C05", tier, seed)
     for c in cases:
         if "error" not in c and len(c["lcd"]) >= 2 and any(len(x[1]) >= 2 for x in c["lcd"]):
             run.mark(c.get("text", "") + "|" + c["id"].split(":")[2])
